@@ -240,6 +240,24 @@ struct JSONUtils {
                 }
 
                 default: {
+                    // RFC 8259: every other control character (U+0000..U+001F) must be escaped as \u00XX.
+                    const SizeT32 code = static_cast<SizeT32>(ch);
+
+                    if (code < SizeT32{0x20}) {
+                        const SizeT32 low = (code & SizeT32{0xF});
+
+                        stream.Write((content + offset2), (offset - offset2));
+
+                        stream += JSONotation::BSlashChar;
+                        offset2 = offset;
+                        ++offset2;
+
+                        stream += JSONotation::U_Char;
+                        stream += Char_T('0');
+                        stream += Char_T('0');
+                        stream += Char_T(SizeT32{'0'} + (code >> 4U));
+                        stream += Char_T((low < SizeT32{10}) ? (SizeT32{'0'} + low) : (SizeT32{'a'} + (low - SizeT32{10})));
+                    }
                 }
             }
 
